@@ -114,6 +114,24 @@ type Machine struct {
 	// Effect designates calls in statement position whose execution is the function's
 	// observable effect: reaching one ends the evaluation with Sym("effect").
 	Effect func(call *ast.CallExpr) bool
+	// AssignEffect designates variables whose (re)assignment is the observable effect: reaching
+	// such an assignment ends the evaluation with Sym("effect"). A continue / break statement and
+	// the end of a statement list run with CheckBody end it with Sym("end").
+	AssignEffect func(obj types.Object) bool
+	// Inline, when set, gives the signature and body a call runs in place (an extracted helper of
+	// the same package): the body is executed with the parameters bound to the evaluated
+	// arguments and its return value(s) become the call's value.
+	Inline func(call *ast.CallExpr) (*ast.FuncType, *ast.BlockStmt)
+	// ReturnIsEnd makes a return statement of the evaluated statement list (not of an inlined
+	// helper) end the evaluation with Sym("end"), like a break out of the loop being examined.
+	ReturnIsEnd bool
+	depth       int // > 0 while executing an inlined helper
+	// RangeEvery, when set, names the boolean operand "every element of the ranged collection is
+	// true" for a `for _, v := range <collection of bool>` loop (empty name: not such a loop).
+	// The loop is then evaluated as a universal test: elements that are true run the body without
+	// leaving it, and when the operand is false the body runs once with v = false.
+	RangeEvery func(rs *ast.RangeStmt) string
+	loopDepth  int
 
 	env    *Env
 	locals map[types.Object]Value
@@ -395,6 +413,9 @@ func (m *Machine) Eval(e ast.Expr) Value {
 		if tv, ok := m.Info.Types[x.Fun]; ok && tv.IsType() && len(x.Args) == 1 {
 			return m.Eval(x.Args[0]) // conversion
 		}
+		if v, ok := m.callInline(x); ok {
+			return v
+		}
 		pkg, recv, name := m.calleeName(x)
 		switch {
 		case pkg == "bytes" && name == "Compare" && len(x.Args) == 2:
@@ -427,7 +448,27 @@ func (m *Machine) Eval(e ast.Expr) Value {
 			return Panic()
 		}
 		return m.opaque(e)
-	case *ast.SelectorExpr, *ast.IndexExpr, *ast.StarExpr, *ast.SliceExpr, *ast.TypeAssertExpr:
+	case *ast.SelectorExpr:
+		// a field of a local that holds a symbolic value is named after that value, so that
+		// `t := earliest(); t.Timestamp` and `timer.Timestamp` inside the helper are one operand
+		if id, ok := ast.Unparen(x.X).(*ast.Ident); ok {
+			if obj := m.Info.Uses[id]; obj != nil {
+				if v, ok := m.locals[obj]; ok && v.K == KSym {
+					name := v.Sym + "." + x.Sel.Name
+					if n, ok := m.Names[name]; ok {
+						name = n
+					}
+					if tv, ok := m.Info.Types[e]; ok {
+						if b, isB := tv.Type.Underlying().(*types.Basic); isB && b.Info()&types.IsBoolean != 0 {
+							return m.boolSym(name)
+						}
+					}
+					return m.ordSym(name)
+				}
+			}
+		}
+		return m.opaque(e)
+	case *ast.IndexExpr, *ast.StarExpr, *ast.SliceExpr, *ast.TypeAssertExpr:
 		return m.opaque(e)
 	case *ast.BasicLit:
 		return m.opaque(e)
@@ -441,6 +482,50 @@ func (m *Machine) Eval(e ast.Expr) Value {
 type returned struct{ v Value }
 
 // exec runs statements; a return is signalled by panic(returned{...}).
+type frameReturn struct{ v Value }
+
+type loopBranch struct{ tok token.Token }
+
+// callInline executes the body Inline designates for the call (if any) with its parameters bound.
+func (m *Machine) callInline(call *ast.CallExpr) (v Value, ok bool) {
+	if m.Inline == nil || m.depth >= 3 {
+		return Value{}, false
+	}
+	ft, body := m.Inline(call)
+	if body == nil {
+		return Value{}, false
+	}
+	if ft.Params != nil {
+		k := 0
+		for _, fld := range ft.Params.List {
+			for _, n := range fld.Names {
+				if k < len(call.Args) {
+					if obj := m.Info.Defs[n]; obj != nil {
+						m.locals[obj] = m.Eval(call.Args[k])
+					}
+				}
+				k++
+			}
+			if len(fld.Names) == 0 {
+				k++
+			}
+		}
+	}
+	m.depth++
+	defer func() {
+		m.depth--
+		if e := recover(); e != nil {
+			if fr, isFR := e.(frameReturn); isFR {
+				v, ok = fr.v, true
+				return
+			}
+			panic(e)
+		}
+	}()
+	m.exec(body.List)
+	return Value{K: KNil}, true
+}
+
 func (m *Machine) exec(list []ast.Stmt) {
 	for _, s := range list {
 		m.execStmt(s)
@@ -452,17 +537,26 @@ func (m *Machine) execStmt(s ast.Stmt) {
 	case *ast.BlockStmt:
 		m.exec(x.List)
 	case *ast.ReturnStmt:
-		if len(x.Results) == 0 {
-			panic(returned{Value{K: KNil}})
+		var rv Value
+		switch len(x.Results) {
+		case 0:
+			rv = Value{K: KNil}
+		case 1:
+			rv = m.Eval(x.Results[0])
+		default:
+			var vs []Value
+			for _, r := range x.Results {
+				vs = append(vs, m.Eval(r))
+			}
+			rv = Tuple(vs...)
 		}
-		if len(x.Results) == 1 {
-			panic(returned{m.Eval(x.Results[0])})
+		if m.depth > 0 {
+			panic(frameReturn{rv})
 		}
-		var vs []Value
-		for _, r := range x.Results {
-			vs = append(vs, m.Eval(r))
+		if m.ReturnIsEnd {
+			panic(returned{Sym("end")})
 		}
-		panic(returned{Tuple(vs...)})
+		panic(returned{rv})
 	case *ast.IfStmt:
 		if x.Init != nil {
 			m.execStmt(x.Init)
@@ -502,6 +596,9 @@ func (m *Machine) execStmt(s ast.Stmt) {
 				if obj == nil {
 					continue
 				}
+				if x.Tok == token.ASSIGN && m.AssignEffect != nil && m.AssignEffect(obj) && !m.disc {
+					panic(returned{Sym("effect")})
+				}
 				if x.Tok == token.ASSIGN || x.Tok == token.DEFINE {
 					m.locals[obj] = vals[i]
 				} else {
@@ -512,7 +609,26 @@ func (m *Machine) execStmt(s ast.Stmt) {
 		}
 		// `a, b := f(...)`: each result is an opaque operand named after its variable
 		if len(x.Rhs) == 1 && (x.Tok == token.DEFINE || x.Tok == token.ASSIGN) {
-			if _, isCall := ast.Unparen(x.Rhs[0]).(*ast.CallExpr); isCall {
+			if call, isCall := ast.Unparen(x.Rhs[0]).(*ast.CallExpr); isCall {
+				if tv, ok := m.callInline(call); ok && tv.K == KTuple && len(tv.Tuple) == len(x.Lhs) {
+					for i, l := range x.Lhs {
+						id, ok := l.(*ast.Ident)
+						if !ok {
+							undecided("assignment to non-local")
+						}
+						if id.Name == "_" {
+							continue
+						}
+						obj := m.Info.Defs[id]
+						if obj == nil {
+							obj = m.Info.Uses[id]
+						}
+						if obj != nil {
+							m.locals[obj] = tv.Tuple[i]
+						}
+					}
+					return
+				}
 				for _, l := range x.Lhs {
 					id, ok := l.(*ast.Ident)
 					if !ok {
@@ -593,6 +709,90 @@ func (m *Machine) execStmt(s ast.Stmt) {
 			m.exec(def.Body)
 		}
 	case *ast.EmptyStmt:
+	case *ast.RangeStmt:
+		name := ""
+		if m.RangeEvery != nil {
+			name = m.RangeEvery(x)
+		}
+		vid, _ := x.Value.(*ast.Ident)
+		if name == "" || vid == nil {
+			undecided("unsupported statement %T", s)
+		}
+		if kid, ok := x.Key.(*ast.Ident); x.Key != nil && (!ok || kid.Name != "_") {
+			undecided("range loop uses its key")
+		}
+		vobj := m.Info.Defs[vid]
+		all := m.boolSym(name)
+		iter := func(v bool) (left bool) {
+			m.locals[vobj] = Bool(v)
+			m.loopDepth++
+			defer func() {
+				m.loopDepth--
+				if e := recover(); e != nil {
+					if lb, ok := e.(loopBranch); ok {
+						left = lb.tok == token.BREAK
+						return
+					}
+					panic(e)
+				}
+			}()
+			m.execStmt(x.Body)
+			return false
+		}
+		if m.disc {
+			func() {
+				defer func() {
+					if e := recover(); e != nil {
+						switch e.(type) {
+						case returned, frameReturn:
+							return
+						}
+						panic(e)
+					}
+				}()
+				iter(true)
+			}()
+			func() {
+				defer func() {
+					if e := recover(); e != nil {
+						switch e.(type) {
+						case returned, frameReturn:
+							return
+						}
+						panic(e)
+					}
+				}()
+				iter(false)
+			}()
+			return
+		}
+		// an element that is true must let the loop go on (otherwise the outcome depends on the
+		// order and number of elements)
+		func() {
+			defer func() {
+				if e := recover(); e != nil {
+					switch e.(type) {
+					case returned, frameReturn:
+						undecided("the loop body leaves the function on an element that is true")
+					}
+					panic(e)
+				}
+			}()
+			if iter(true) {
+				undecided("the loop body breaks on an element that is true")
+			}
+		}()
+		if !all.B {
+			iter(false)
+		}
+	case *ast.BranchStmt:
+		if (x.Tok == token.CONTINUE || x.Tok == token.BREAK) && x.Label == nil {
+			if m.loopDepth > 0 {
+				panic(loopBranch{x.Tok})
+			}
+			panic(returned{Sym("end")})
+		}
+		undecided("unsupported branch statement %s", x.Tok)
 	case *ast.DeclStmt:
 		gd, ok := x.Decl.(*ast.GenDecl)
 		if !ok || gd.Tok != token.VAR {
@@ -617,6 +817,9 @@ func (m *Machine) discover(s ast.Stmt) {
 	defer func() {
 		if e := recover(); e != nil {
 			if _, ok := e.(returned); ok {
+				return
+			}
+			if _, ok := e.(frameReturn); ok {
 				return
 			}
 			panic(e)
@@ -775,6 +978,12 @@ func (m *Machine) Check(run func(), side func(Env) bool, spec func(Env) Value) (
 // CheckFunc evaluates a function body.
 func (m *Machine) CheckFunc(body *ast.BlockStmt, side func(Env) bool, spec func(Env) Value) Result {
 	return m.Check(func() { m.exec(body.List) }, side, spec)
+}
+
+// CheckBody evaluates a statement list (one loop iteration): the result is Sym("effect") when an
+// AssignEffect / Effect is reached, Sym("end") when the list ends or continues / breaks first.
+func (m *Machine) CheckBody(list []ast.Stmt, side func(Env) bool, spec func(Env) Value) Result {
+	return m.Check(func() { m.exec(list); panic(returned{Sym("end")}) }, side, spec)
 }
 
 // CheckExpr evaluates a single expression.
